@@ -63,7 +63,15 @@ FN_RE_UNIT = re.compile(r"^fn (.+?)\((.*)\) \{$")
 
 def split_top(s, sep=","):
     out, depth, cur = [], 0, ""
+    in_str = False
+    prev = ""
     for ch in s:
+        if ch == '"' and prev != "\\":
+            in_str = not in_str
+        prev = ch
+        if in_str:
+            cur += ch
+            continue
         if ch in "([{<":
             depth += 1
         elif ch in ")]}>":
@@ -149,11 +157,20 @@ PRELUDE = f"""
 
 
 class Val:
-    """symbolic value: SMT term + rust type; aggregates carry fields"""
-    def __init__(self, term, ty, fields=None):
+    """symbolic value: SMT term + rust type; aggregates carry fields; small
+    integers that are known constants keep their Python value in .k (so that
+    loop counters / discriminants fold and bounded loops terminate)"""
+    def __init__(self, term, ty, fields=None, k=None, kind=None, ref_to=None, pos=0):
         self.term = term
         self.ty = ty
         self.fields = fields
+        self.k = k
+        self.kind = kind      # None | 'iter' | 'option' | 'opaque' | 'unit'
+        self.ref_to = ref_to  # name of the local a &mut points to
+        self.pos = pos        # iterator position
+
+
+UNIT = None
 
 
 # --------------------------------------------------------------------------
@@ -168,11 +185,12 @@ class Exec:
         self.encoded = set()
         self.side = []       # side constraints (to_bits)
         self.decls = []
+        self.cur_env = None
 
     # ---- operands ----
     def operand(self, env, f, s):
         s = s.strip()
-        m = re.match(r"(?:copy|move) (.+)$", s)
+        m = re.match(r"(?:no_retag )?(?:copy|move) (.+)$", s)
         if m:
             return self.place(env, f, m.group(1))
         m = re.match(r"const (.+)$", s)
@@ -187,26 +205,51 @@ class Exec:
             return Val(fp_const(m.group(1)), "f32")
         m = re.match(r"(-?\d+)_(u8|u16|u32|u64|usize|i8|i16|i32|i64|isize)$", c)
         if m:
-            return Val(bv_const(m.group(1), INT_TYPES[m.group(2)][0]), m.group(2))
+            return Val(bv_const(m.group(1), INT_TYPES[m.group(2)][0]), m.group(2), k=int(m.group(1)))
         if c in ("true", "false"):
-            return Val(c, "bool")
+            return Val(c, "bool", k=(c == "true"))
         if c in ("f32::INFINITY", "core::f32::INFINITY"):
             return Val("(_ +oo 8 24)", "f32")
+        if c.startswith("ZeroSized") or "PhantomData" in c or c == "()":
+            return Val(None, "()", fields=[], kind="unit")
+        if c.startswith('b"') or c.startswith('"'):
+            return Val(None, "str", fields=[], kind="opaque")
         raise Unsupported(f"const {c}")
 
     def place(self, env, f, p):
+        """places: _N | (P.i: T) | P[k of n] | (*P) | *P | (P as Variant)"""
         p = p.strip()
-        m = re.match(r"\((_\d+)\.(\d+): (.+)\)$", p)
+        m = re.match(r"(.+)\[(\d+) of \d+\]$", p)
         if m:
-            base = env.get(m.group(1))
-            if base is None:
-                raise Unsupported(f"uninitialised {m.group(1)}")
+            base = self.place(env, f, m.group(1))
             if base.fields is None:
-                # transparent newtype over a scalar
-                if m.group(2) == "0":
-                    return Val(base.term, m.group(3))
-                raise Unsupported(f"field of scalar {p}")
+                raise Unsupported(f"index into scalar {p}")
             return base.fields[int(m.group(2))]
+        if p.startswith("(") and p.endswith(")"):
+            inner = p[1:-1].strip()
+            m = re.match(r"(.+)\.(\d+): (.+)$", inner)
+            if m and self._balanced(m.group(1)):
+                base = self.place(env, f, m.group(1))
+                i = int(m.group(2))
+                if base.fields is None:
+                    if i == 0:   # transparent newtype over a scalar
+                        return Val(base.term, m.group(3), k=base.k)
+                    raise Unsupported(f"field {i} of scalar in {p}")
+                if i >= len(base.fields):
+                    raise Unsupported(f"field {i} out of range in {p}")
+                return base.fields[i]
+            m = re.match(r"(.+) as (\w+)$", inner)
+            if m:
+                return self.place(env, f, m.group(1))
+            return self.place(env, f, inner)
+        if p.startswith("*"):
+            v = self.place(env, f, p[1:])
+            if v.ref_to is not None:
+                t = env.get(v.ref_to)
+                if t is None:
+                    raise Unsupported(f"dangling reference in {p}")
+                return t
+            return v
         if re.match(r"_\d+$", p):
             v = env.get(p)
             if v is None:
@@ -214,9 +257,36 @@ class Exec:
             return v
         raise Unsupported(f"place {p}")
 
+    @staticmethod
+    def _balanced(t):
+        d = 0
+        for ch in t:
+            if ch in "([":
+                d += 1
+            elif ch in ")]":
+                d -= 1
+            if d < 0:
+                return False
+        return d == 0
+
     # ---- rvalues ----
     def rvalue(self, env, f, dst_ty, r, pc):
         r = r.strip()
+        m = re.match(r"&(mut )?(.+)$", r)
+        if m:
+            tgt = m.group(2).strip()
+            if m.group(1) and re.match(r"_\d+$", tgt):
+                return Val(None, dst_ty, ref_to=tgt)
+            return self.place(env, f, tgt)   # shared borrow: snapshot of the value
+        m = re.match(r"discriminant\((.+)\)$", r)
+        if m:
+            v = self.place(env, f, m.group(1))
+            if v.kind != "option":
+                raise Unsupported("discriminant of non-option")
+            return Val(bv_const(v.k, 64), "isize", k=v.k)
+        m = re.match(r"\[(.*)\]$", r)
+        if m:
+            return Val(None, dst_ty, fields=[self.operand(env, f, a) for a in split_top(m.group(1))])
         m = re.match(r"(\w+)\((.*)\)$", r)
         if m and m.group(1) in BINOPS | {"Not", "Neg"} | OVERFLOW_OPS:
             op = m.group(1)
@@ -225,15 +295,22 @@ class Exec:
         m = re.match(r"(.+) as (\w+) \((\w+)\)$", r)
         if m:
             return self.cast(self.operand(env, f, m.group(1)), m.group(2), m.group(3))
-        m = re.match(r"(copy|move|const) ", r)
-        if m:
+        if re.match(r"(no_retag )?(copy|move|const) ", r):
             return self.operand(env, f, r)
-        # newtype / tuple-struct constructor:  Angle(move _4)
-        m = re.match(r"([A-Za-z_][\w:<>, ]*)\((.*)\)$", r)
+        # closure / struct with named fields:  {closure@...} { m: copy _30 }   Foo { a: move _1 }
+        m = re.match(r"(.+?) \{ (.*) \}$", r)
+        if m:
+            flds = []
+            for part in split_top(m.group(2)):
+                flds.append(self.operand(env, f, part.split(":", 1)[1]))
+            return Val(None, dst_ty, fields=flds)
+        # newtype / tuple-struct constructor:  Angle(move _4)   Color::<R, Sp>(copy _1, const ZeroSized: ..)
+        m = re.match(r"([A-Za-z_][\w:<>, \[\];]*)\((.*)\)$", r)
         if m:
             args = [self.operand(env, f, a) for a in split_top(m.group(2))]
-            if len(args) == 1:
-                return Val(args[0].term, dst_ty)
+            real = [a for a in args if a.kind != "unit"]
+            if len(args) == 1 and args[0].fields is None:
+                return Val(args[0].term, dst_ty, k=args[0].k)
             return Val(None, dst_ty, fields=args)
         m = re.match(r"\((.*)\)$", r)
         if m:
@@ -323,7 +400,7 @@ class Exec:
             else:
                 lo, hi = 0, (1 << bits) - 1
                 conv = f"((_ fp.to_ubv {bits}) RTZ {v.term})"
-            flo = f"((_ to_fp 8 24) RTZ {float(lo)})" if lo != 0 else "((_ to_fp 8 24) RTZ 0.0)"
+            flo = f"((_ to_fp 8 24) RTZ (- {float(-lo)}))" if lo != 0 else "((_ to_fp 8 24) RTZ 0.0)"
             # 2^(bits-1) resp. 2^bits are exactly representable
             top = float(1 << (bits - 1)) if signed else float(1 << bits)
             ftop = f"((_ to_fp 8 24) RTZ {top})"
@@ -345,10 +422,38 @@ class Exec:
     # ---- calls ----
     def call(self, name, args, pc, depth):
         name = name.strip()
+        # ---- modelled pieces of core ----
+        if re.match(r"<\[.*\] as IntoIterator>::into_iter$", name):
+            return [("true", Val(None, "IntoIter", fields=list(args[0].fields), kind="iter", pos=0))]
+        if re.match(r"<core::array::IntoIter<.*> as Iterator>::next$", name):
+            tgt = args[0].ref_to
+            it = self.cur_env.get(tgt)
+            if it is None or it.kind != "iter":
+                raise Unsupported("next() on something that is not a modelled array iterator")
+            if it.pos < len(it.fields):
+                item = it.fields[it.pos]
+                self.cur_env[tgt] = Val(None, it.ty, fields=it.fields, kind="iter", pos=it.pos + 1)
+                return [("true", Val(None, "Option", fields=[item], kind="option", k=1))]
+            return [("true", Val(None, "Option", fields=[], kind="option", k=0))]
+        m = re.match(r"array::<impl \[.*\]>::map::<(\{closure@.*?\}), .*>$", name)
+        if m:
+            cl = [fn for fn in self.funcs.values() if fn.params and m.group(1) in fn.params[0][1]]
+            if len(cl) != 1:
+                raise Unsupported(f"closure for {name}")
+            out = []
+            for el in args[0].fields:
+                r = self.run(cl[0], [args[1], el], pc, depth + 1)
+                out.append(self.merge(r, None))
+            return [("true", Val(None, "array", fields=out))]
+        if re.search(r" as Into<.*>>::into$", name) or re.search(r" as From<.*>>::from$", name):
+            # the crate's only From/Into impls for its newtypes wrap the representation
+            return [("true", Val(None, "newtype", fields=[args[0], Val(None, "()", fields=[], kind="unit")]))]
+        if name.startswith(("core::fmt::", "Arguments::")) or "fmt::rt::Argument" in name:
+            return [("true", Val(None, "fmt", fields=[], kind="opaque"))]
         intr = INTRINSICS.get(re.sub(r"^core::|^std::", "", name))
         if intr:
             return intr(self, args)
-        short = name
+        short = re.sub(r"::<[^()]*>$", "", name)   # drop a trailing turbofish
         if short in self.funcs:
             return self.run(self.funcs[short], args, pc, depth + 1)
         # the dump prints crate-local paths without the crate name
@@ -368,15 +473,23 @@ class Exec:
         return self.exec_block(f, "bb0", env, pc, depth, 0)
 
     def merge(self, outcomes, ty):
-        """ite-merge of (pc, Val) outcomes into one Val (scalars only)"""
+        """ite-merge of (pc, Val) outcomes into one Val (fieldwise for aggregates)"""
         if not outcomes:
             raise Unsupported("no return path")
-        if outcomes[0][1].fields is not None:
-            raise Unsupported("merging aggregates")
+        first = outcomes[0][1]
+        if len(outcomes) == 1:
+            return first
+        if first.fields is not None:
+            n = len(first.fields)
+            if any(o[1].fields is None or len(o[1].fields) != n for o in outcomes):
+                raise Unsupported("merging differently shaped aggregates")
+            return Val(None, first.ty, fields=[self.merge([(pc, v.fields[i]) for pc, v in outcomes], None) for i in range(n)], kind=first.kind)
+        if first.kind in ("unit", "opaque") or first.term is None:
+            return first
         t = outcomes[-1][1].term
         for pc, v in reversed(outcomes[:-1]):
             t = f"(ite {pc} {v.term} {t})"
-        return Val(t, outcomes[0][1].ty)
+        return Val(t, first.ty)
 
     def exec_block(self, f, bb, env, pc, depth, steps):
         if steps > 200:
@@ -400,6 +513,19 @@ class Exec:
                 v = self.operand(env, f, m.group(1))
                 outs = []
                 taken = []
+                if v.k is not None:
+                    # concrete discriminant / counter: follow the one matching arm
+                    kv = int(v.k)
+                    tgt = None
+                    for arm in split_top(m.group(2)):
+                        k, t = [x.strip() for x in arm.split(":")]
+                        if k == "otherwise":
+                            if tgt is None:
+                                tgt = t
+                        elif int(k) == kv:
+                            tgt = t
+                            break
+                    return self.exec_block(f, tgt, env, pc, depth, steps + 1)
                 for arm in split_top(m.group(2)):
                     k, tgt = [x.strip() for x in arm.split(":")]
                     if k == "otherwise":
@@ -418,17 +544,24 @@ class Exec:
                 ok = f"(not {c.term})" if m.group(1) == "!" else c.term
                 self.panics.append((f"(and {pc} (not {ok}))", f"{f.name}: {m.group(3)[:60]}"))
                 return self.exec_block(f, m.group(4), env, f"(and {pc} {ok})", depth, steps + 1)
+            m = re.match(r"drop\(.+?\) -> \[return: (bb\d+), unwind.*\];?$", s)
+            if m:
+                return self.exec_block(f, m.group(1), env, pc, depth, steps + 1)
+            m = re.match(r"(.+?) = (.*panic.*?)\((.*)\) -> unwind.*;?$", s)
+            if m:
+                self.panics.append((pc, f"{f.name}: {m.group(2).strip()}"))
+                return []
             m = re.match(r"(.+?) = (.+?)\((.*)\) -> \[return: (bb\d+), unwind.*\];?$", s)
             if m:
                 dst, callee, argstr, nxt = m.groups()
                 args = [self.operand(env, f, a) for a in split_top(argstr)]
+                self.cur_env = env
                 outs = self.call(callee, args, pc, depth)
                 dty = f.locals.get(dst.strip(), outs[0][1].ty)
-                if len(outs) == 1:
-                    rv = outs[0][1]
-                else:
-                    rv = self.merge(outs, dty)
-                env[dst.strip()] = Val(rv.term, dty if rv.fields is None else rv.ty, rv.fields)
+                if not outs:
+                    return []      # callee always panics
+                rv = outs[0][1] if len(outs) == 1 else self.merge(outs, dty)
+                env[dst.strip()] = Val(rv.term, dty if rv.fields is None else rv.ty, rv.fields, k=rv.k, kind=rv.kind, ref_to=rv.ref_to, pos=rv.pos)
                 return self.exec_block(f, nxt, env, pc, depth, steps + 1)
             if s.startswith("unreachable"):
                 self.panics.append((pc, f"{f.name}: unreachable reached"))
@@ -441,7 +574,7 @@ class Exec:
                     raise Unsupported(f"field assignment {dst}")
                 dty = f.locals.get(dst, "?")
                 v = self.rvalue(env, f, dty, rhs, pc)
-                env[dst] = Val(v.term, dty if v.fields is None and dty != "?" else v.ty, v.fields)
+                env[dst] = Val(v.term, dty if v.fields is None and dty != "?" else v.ty, v.fields, k=v.k, kind=v.kind, ref_to=v.ref_to, pos=v.pos)
                 continue
             raise Unsupported(f"statement {s}")
         raise Unsupported(f"block {bb} without terminator")
@@ -461,6 +594,10 @@ INTRINSICS = {
     "f32::<impl f32>::rem_euclid": lambda ex, a: [("true", Val(
         f"(let ((r (fmod32 {a[0].term} {a[1].term}))) (ite (fp.lt r ((_ to_fp 8 24) RNE 0.0)) (fp.add RNE r (fp.abs {a[1].term})) r))", "f32"))],
     "f32::<impl f32>::floor": lambda ex, a: [("true", Val(f"(fp.roundToIntegral RTN {a[0].term})", "f32"))],
+    "f32::<impl f32>::max": lambda ex, a: [("true", Val(
+        f"(ite (fp.isNaN {a[0].term}) {a[1].term} (ite (fp.isNaN {a[1].term}) {a[0].term} (ite (fp.gt {a[0].term} {a[1].term}) {a[0].term} {a[1].term})))", "f32"))],
+    "f32::<impl f32>::min": lambda ex, a: [("true", Val(
+        f"(ite (fp.isNaN {a[0].term}) {a[1].term} (ite (fp.isNaN {a[1].term}) {a[0].term} (ite (fp.lt {a[0].term} {a[1].term}) {a[0].term} {a[1].term})))", "f32"))],
     "f32::<impl f32>::from_bits": lambda ex, a: [("true", Val(f"((_ to_fp 8 24) {a[0].term})", "f32"))],
     "f32::<impl f32>::to_bits": lambda ex, a: ex.to_bits(a[0]),
 }
